@@ -58,7 +58,12 @@ def kernel_grids(ctx):
                     gen, spec = ctx.model("k_qis", enc_list([enc_num(lo), enc_num(hi), enc_num(y), enc_num(ll), enc_num(ul)]))
                     gen, spec = core.dec_nums(gen), core.dec_nums(spec)
                     da = lambda v: xr.DataArray([float(v)], dims="x")  # noqa: E731
-                    r = S.continuous.quantile_interval_score(da(lo), da(hi), da(y), float(ll), float(ul), preserve_dims="all")
+                    rr = core.call_impl(S.continuous.quantile_interval_score, da(lo), da(hi), da(y), float(ll), float(ul), preserve_dims="all")
+                    if rr[0] != "ok":
+                        ctx.violation(f"quantile_interval_score rejects a valid (lower <= upper) interval with {rr[1]}",
+                                      {"lower": lo, "upper": hi, "obs": y, "levels": [ll, ul]}, spec, rr[1])
+                        continue
+                    r = rr[1]
                     impl = [float(r[v].values.ravel()[0]) for v in scorelib.QIS_VARS]
                     n += 1
                     ctx.case(("kqis", ll, ul, lo, hi, y))
@@ -123,6 +128,29 @@ def run(ctx):
             if not ok:
                 ctx.tie_fail(name + " vs model: " + why, desc, str(impl[1])[:300], str(m)[:300])
     relations(ctx)
+    pandas_api(ctx)
+
+
+def pandas_api(ctx):
+    """scores.pandas.continuous equals the xarray functions on the same values, for every option they share"""
+    import pandas as pd
+    from scores.pandas import continuous as PC
+    S = scorelib.S()
+    rng = ctx.rng
+    for _ in range(ctx.n(20, 150)):
+        n = rng.randint(1, 6)
+        ang = rng.random() < 0.5
+        mk = (lambda: float(rng.randint(-16, 32) * 22.5)) if ang else (lambda: float(gens.grid_value(rng)))
+        f = [mk() for _ in range(n)]
+        o = [mk() if rng.random() > 0.15 else float("nan") for _ in range(n)]
+        for nm in ("mse", "rmse", "mae"):
+            a = core.call_impl(getattr(PC, nm), pd.Series(f), pd.Series(o), is_angular=ang)
+            b = core.call_impl(getattr(S.continuous, nm), xr.DataArray(f, dims="x"), xr.DataArray(o, dims="x"), is_angular=ang)
+            ctx.case(("pandas", nm, ang, tuple(f), tuple(map(str, o))))
+            ctx.count("pandas:" + nm)
+            if a[0] != b[0] or (a[0] == "ok" and not np.allclose(float(a[1]), float(b[1]), rtol=1e-9, atol=1e-12, equal_nan=True)):
+                ctx.violation(f"scores.pandas.continuous.{nm}(is_angular={ang}) differs from scores.continuous.{nm} on the same values",
+                              {"fcst": f, "obs": o, "is_angular": ang}, str(b[1]), str(a[1]))
 
 
 def relations(ctx):
